@@ -5,6 +5,7 @@ import (
 	"errors"
 	"fmt"
 	"maps"
+	"slices"
 	"sort"
 	"sync"
 
@@ -245,7 +246,7 @@ func (pm *pathManager) doReloadConf(newPaths map[string]*conf.Path) {
 
 	// process existing paths
 	for pathName, pa := range pm.paths {
-		newPathConf, _, err := conf.FindPathConf(newPaths, pathName)
+		newPathConf, newMatches, err := conf.FindPathConf(newPaths, pathName)
 		// path does not have a config anymore: delete it
 		if err != nil {
 			pm.doClosePath(pa)
@@ -254,9 +255,10 @@ func (pm *pathManager) doReloadConf(newPaths map[string]*conf.Path) {
 
 		// path now belongs to a different config
 		if newPathConf.Name != pa.confName {
-			// path config can be hot reloaded
+			// path config can be hot reloaded, unless capture groups have changed
 			oldPathConf := pm.pathConfs[pa.confName]
-			if pathConfCanBeUpdated(oldPathConf, newPathConf) {
+			if pathConfCanBeUpdated(oldPathConf, newPathConf) &&
+				slices.Equal(captureGroups(pa.matches), captureGroups(newMatches)) {
 				pa.confName = newPathConf.Name
 				pa.reloadConf(newPathConf)
 				continue
@@ -289,6 +291,13 @@ func (pm *pathManager) doReloadConf(newPaths map[string]*conf.Path) {
 			}
 		}
 	}
+}
+
+func captureGroups(matches []string) []string {
+	if len(matches) > 1 {
+		return matches[1:]
+	}
+	return nil
 }
 
 func (pm *pathManager) doClosePath(pa *path) {
